@@ -22,7 +22,14 @@ package dispatcher
 //@   loop 0 invariant[C06] idx > 0 ==> disp_act_ta == transferAttr && transferAttr.destinationCoin == disp_exit
 //@   loop 0 invariant[C06] idx == 0 ==> transferAttr.destinationCoin == old(transferAttr.destinationCoin)
 //@   loop 0 invariant[base] fieldframe("types/core.TransferAttributes", "destinationCoin", transferAttr)
+//@   loop 0 invariant[C01] bankNonneg(bank)
+//@   loop 0 invariant[C01] transferAttr.destinationCoin.Denom == old(transferAttr.destinationCoin.Denom) || bal(bank, orb(), old(transferAttr.destinationCoin.Denom)) == 0
+//@   loop 0 invariant[C01] orbNoGainExcept(transferAttr.destinationCoin.Denom)
 //@   ensures[C06] err == nil ==> disp_act_n == old(disp_act_n) + len(actions)
+//@   requires[C01] bankNonneg(bank)
+//@   ensures[C01] err == nil ==> bankNonneg(bank)
+//@   ensures[C01] err == nil ==> transferAttr.destinationCoin.Denom == old(transferAttr.destinationCoin.Denom) || bal(bank, orb(), old(transferAttr.destinationCoin.Denom)) == 0
+//@   ensures[C01] err == nil ==> orbNoGainExcept(transferAttr.destinationCoin.Denom)
 //@   ensures[C06] err == nil ==> forall j int :: 0 <= j && j < len(actions) ==> disp_act_log[old(disp_act_n) + j] == actions[j]
 //@   ensures[C06] err == nil && len(actions) > 0 ==> disp_act_ta == transferAttr && transferAttr.destinationCoin == disp_exit
 //@   ensures[C06] err == nil && len(actions) == 0 ==> transferAttr.destinationCoin == old(transferAttr.destinationCoin)
@@ -34,6 +41,9 @@ package dispatcher
 //@   modifies bank, events, fwdcalls, fwd_ctrl, fwd_pkt, disp_fwd_n, disp_fwd_ta, disp_fwd_fw, disp_fwd_coin, out_n, out_kind, out_cctp, out_cctpc, out_hyp, out_send
 //@   ensures[C06] err == nil ==> disp_fwd_n == old(disp_fwd_n) + 1 && disp_fwd_ta == transferAttr && disp_fwd_fw == forwarding && disp_fwd_coin == old(transferAttr.destinationCoin)
 //@   ensures[C06] disp_fwd_n <= old(disp_fwd_n) + 1
+//@   requires[C01] bankNonneg(bank)
+//@   ensures[C01] err == nil ==> bankNonneg(bank)
+//@   ensures[C01] err == nil ==> bal(bank, orb(), transferAttr.destinationCoin.Denom) == 0 && orbNoGainExcept(transferAttr.destinationCoin.Denom)
 
 // The whole dispatch: a payload with a repeated (or otherwise invalid) action list is refused before
 // anything runs; on success every action ran once, in order, on the shared attributes, and the
